@@ -443,13 +443,29 @@ def native_enumeration(limit=4000):
                     s = c.get('sources')
                     if isinstance(s, str) and ';main!opt' in ' '.join(args) and i > 0 and 'main!opt' not in s and combo[-1] == 3 and c is res[-1][1]:
                         bad.append(f'{args}: suffix lost in {s!r}')
+    # every kind of reference suffix (ephemeral marker, topic, option and their combinations): the source must be rewritten to the address the producer binds, suffix kept
+    for suf, ipc, named, explicit in itertools.product(('', '?', '??', ';main', '!opt', ';main!opt', '?;main', '??;main', '?!opt', '??;a;b!opt=1'), (False, True), (False, True), (False, True)):
+        prod = 'cam' if named else 'VideoIn'
+        args = ['VideoIn'] + (['--id', 'cam'] if named else []) + (['--outputs', 'tcp://*:6100'] if explicit else []) + ['-', 'Util', '--sources', prod + suf]
+        n += 1
+        try:
+            res = parse_filters(list(reversed(args)), ipc=ipc)
+        except Exception as e:
+            bad.append(f'{args} (ipc={ipc}): {type(e).__name__}: {e}')
+            continue
+        outs, srcs = res[0][1].get('outputs'), res[1][1].get('sources')
+        out0 = (outs[0] if isinstance(outs, list) else outs) if outs else None
+        src0 = (srcs[0] if isinstance(srcs, list) else srcs) if srcs else None
+        want_addr = None if out0 is None else out0.replace('tcp://*:', 'tcp://localhost:')
+        if out0 is None or src0 != want_addr + suf:
+            bad.append(f'{args} (ipc={ipc}): the producer binds {outs!r} but the reference {prod + suf!r} was rewritten to {srcs!r} (required: {None if want_addr is None else want_addr + suf!r})')
     return {'confirmed': bool(bad), 'inputs': f'{n} generated command lines (1..3 filters)', 'observed': bad[:3] or 'all postconditions hold natively', 'cases': n}
 
 
 def extra_checks(tier, seed, pool):
     r = native_enumeration(2000 if tier == 'quick' else 20000)
     out = {'bounded': [{'clause': 'C12 postconditions on the WHOLE parse_filters (argument parsing included)', 'kind': 'BOUNDED native enumeration (not a proof)',
-                        'bound': '1..3 filters x {plain, --id, --outputs tcp://*:port (6000.., and odd/even ports 5549..5553 around the automatic range), --sources <ref>;main!opt} x ipc on/off', 'cases': r['cases'], 'failures': len(r['observed']) if r['confirmed'] else 0}]}
+                        'bound': '1..3 filters x {plain, --id, --outputs tcp://*:port (6000.., and odd/even ports 5549..5553 around the automatic range), --sources <ref>;main!opt} x ipc on/off; + two filters x reference suffix in {none, ?, ??, ;t, !o, ;t!o, ?;t, ??;t, ?!o, ??;a;b!o=1} x ipc x named x explicit output', 'cases': r['cases'], 'failures': len(r['observed']) if r['confirmed'] else 0}]}
     if r['confirmed']:
         out['failures'] = [{'obligation': 'C12 (bounded): generated command line violates a postcondition', 'unit': 0, 'shape': 'bounded', 'model': None, 'extra': None, 'goal': '', 'path_condition': [],
                             'solver': 'bounded enumeration', 'native': r}]
